@@ -128,7 +128,8 @@ impl World {
             SlotClass::Fast => (80, 100),
             SlotClass::Slow | SlotClass::NotarOnly => (60, 79),
             SlotClass::NfOnly => (20, 59),
-            SlotClass::SideOpen => (0, 60),
+            // up to a notarized (never fast-finalizable) block in a slot the main chain passes over
+            SlotClass::SideOpen => (0, 79),
             SlotClass::Skip | SlotClass::Empty => (0, 39),
         };
         let target = rng.random_range(lo..=hi);
@@ -144,6 +145,12 @@ impl World {
                 let would = acc + s;
                 let over = match cls {
                     SlotClass::Fast => false,
+                    // the block must stay below fast finalization even if every Byzantine validator adds a
+                    // notarization vote for it
+                    SlotClass::SideOpen => {
+                        let byz_rest: u128 = byz.iter().filter(|b| !voters.contains(b) && **b != i).map(|b| ep.stakes[*b] as u128).sum();
+                        (would + byz_rest) * 100 > hi * total
+                    }
                     _ => would * 100 > hi * total + (total - 1).min(0),
                 };
                 if reached || over {
